@@ -125,6 +125,10 @@ pub fn collision_cases(out: &mut Vec<Case>) {
     p("names/digits", "T1 ::= SEQUENCE { a1 BOOLEAN, a2b BOOLEAN, a-2 BOOLEAN }\nT ::= SEQUENCE { x T1 }");
     p("names/long-hyphenated", "T ::= SEQUENCE { this-is-a-very-long-hyphenated-component-name BOOLEAN, thisIsCamelCase BOOLEAN, mixed-camelCase-name BOOLEAN }");
     p("names/upper-run", "T ::= SEQUENCE { httpURL BOOLEAN, xMLParser BOOLEAN, iD BOOLEAN }\nHTTPRequest ::= BOOLEAN\nXMLHttpRequest ::= NULL");
+    // one-letter segments: the name mapping is not idempotent there (a-b -> AB -> Ab)
+    p("names/default-item-with-one-letter-segments", "Plan ::= ENUMERATED { a-b, x-y-position, zz }\nT ::= SEQUENCE { p Plan DEFAULT a-b, q Plan DEFAULT x-y-position, z BOOLEAN }");
+    p("names/default-item-of-type-with-one-letter-segments", "X-Y ::= ENUMERATED { up, down }\nA-B-Type ::= ENUMERATED { e-w, n-s }\nT ::= SEQUENCE { r X-Y DEFAULT down, s A-B-Type DEFAULT n-s }");
+    p("names/one-letter-segments-everywhere", "X-Y ::= SEQUENCE { a-b BOOLEAN, c-d-e INTEGER (0..7) OPTIONAL }\nT ::= CHOICE { p-q X-Y, r-s NULL }\nL ::= SEQUENCE OF X-Y");
     p("names/single-letter", "A ::= BOOLEAN\nT ::= SEQUENCE { a A, b BOOLEAN }");
 }
 
